@@ -59,13 +59,19 @@ impl RBoard {
             self.int_source = true;
         }
     }
-    fn recompute_comparators(&mut self) {
+    /// Comparator 1 follows analog input 1 and DAC 1, comparator 2 the larger of analog input 2 / temperature
+    /// and DAC 2; each is re-evaluated by the events on its own inputs (after a master reset, which clears
+    /// the DACs without an event, a comparator bit is only judged again from its next event on).
+    fn recompute_comp1(&mut self) {
         let c1 = self.ai1 > self.do1 as f32 / 100.0;
-        let bigger = if self.temp > self.ai2 { self.temp } else { self.ai2 };
-        let c2 = bigger > self.do2 as f32 / 100.0;
-        let (o1, o2) = (self.comp1, self.comp2);
+        let o1 = self.comp1;
         self.edge(4, o1, c1);
         self.comp1 = c1;
+    }
+    fn recompute_comp2(&mut self) {
+        let bigger = if self.temp > self.ai2 { self.temp } else { self.ai2 };
+        let c2 = bigger > self.do2 as f32 / 100.0;
+        let o2 = self.comp2;
         self.edge(5, o2, c2);
         self.comp2 = c2;
     }
@@ -75,15 +81,15 @@ impl RBoard {
     }
     pub fn set_temp(&mut self, v: f32) {
         self.temp = clamp_volt(v);
-        self.recompute_comparators();
+        self.recompute_comp2();
     }
     pub fn set_ai1(&mut self, v: f32) {
         self.ai1 = clamp_volt(v);
-        self.recompute_comparators();
+        self.recompute_comp1();
     }
     pub fn set_ai2(&mut self, v: f32) {
         self.ai2 = clamp_volt(v);
-        self.recompute_comparators();
+        self.recompute_comp2();
     }
     pub fn set_j1(&mut self, v: bool) {
         let old = self.j1;
@@ -107,11 +113,11 @@ impl RBoard {
             0xF0 => {
                 self.do1 = b;
                 self.fan = true;
-                self.recompute_comparators();
+                self.recompute_comp1();
             }
             0xF1 => {
                 self.do2 = b;
-                self.recompute_comparators();
+                self.recompute_comp2();
             }
             0xF2 => match b >> 6 {
                 0 => {
